@@ -874,6 +874,16 @@ def rule_verify(ctx, repo, it):
         if clean:
             cs = find(evs, lambda e: e[0] == 'if' and e[1] == 'len(stack) != 1' and not e[2], last)
             if cs < 0:
+                # `len(stack) > 1` says the same where the stack is known non-empty: a not-taken `len(stack) == 0` after the
+                # last evaluation with nothing but reads of the stack in between
+                c2 = find(evs, lambda e: e[0] == 'if' and e[1] == 'len(stack) > 1' and not e[2], last)
+                if c2 >= 0:
+                    ev_ = max([k_ for k_ in range(c2) if evs[k_][0] == 's' and evs[k_][1].startswith('EvalScript(stack, ')] or [-1])
+                    ne_ = [k_ for k_ in range(ev_ + 1, c2) if evs[k_][0] == 'if' and evs[k_][1] == 'len(stack) == 0' and not evs[k_][2]]
+                    if ev_ >= 0 and ne_ and not any(evs[k_][0] == 's' and re.search(r'\bstack\b', evs[k_][1]) for k_ in range(ne_[-1], c2)):
+                        cs = c2
+                        ctx.explain(fi, evs[c2][3], 'C06.V1 cleanstack: the stack is known non-empty there, so `> 1` is `!= 1`')
+            if cs < 0:
                 problems.setdefault('cleanstack', 'CLEANSTACK does not require exactly one remaining stack element at the end')
     for k in ('both-evaluated', 'nonempty-true', 'p2sh:copy', 'p2sh:push-only', 'p2sh:restore', 'p2sh:inner', 'p2sh:guard', 'cleanstack'):
         if k in problems:
